@@ -390,6 +390,17 @@ def count_nodes(v):
     return 1
 
 
+def count_chars(v):
+    """Total length of the text / byte strings inside a decoded value."""
+    if isinstance(v, dict):
+        return sum(count_chars(k) + count_chars(x) for k, x in v.items())
+    if isinstance(v, (list, tuple)):
+        return sum(count_chars(x) for x in v)
+    if isinstance(v, (str, bytes, bytearray)):
+        return len(v)
+    return 0
+
+
 # --------------------------------------------------------------------------
 # messages
 
